@@ -693,7 +693,7 @@ def run(ck: common.Check, replay=None):
         seqs = [replay["sequence"]]
     else:
         seqs += corpus()
-        n_rand = 260 if ck.tier == "quick" else 3000
+        n_rand = 260 if ck.tier == "quick" else 2000
         for _ in range(n_rand):
             seqs.append(gen_seq(rng, 3, 14))
         if ck.tier == "thorough":
@@ -702,6 +702,7 @@ def run(ck: common.Check, replay=None):
                     seqs.append({"items": [["t", e] for e in perm]})
             ck.cov["exhaustive"] = False
             ck.cov["permutation_sets"] = len(perm_sets())
+            ck.cov["permutation_orders_complete"] = "all 720 orders of each of the %d six-element sets (widths 1,2,3,8)" % len(perm_sets())
         else:
             # a seeded sample of the orders of the thorough sets
             for s in perm_sets():
